@@ -228,15 +228,50 @@ func unicodePred(v Val) func(rune) bool {
 	return nil
 }
 
+// repoPred turns a repository function value func(rune) bool into a Go
+// predicate evaluated by the abstract interpreter itself.
+func repoPred(m *Machine, v Val, failed *bool) func(rune) bool {
+	fv, ok := v.(*FuncV)
+	if !ok {
+		return nil
+	}
+	f, ok := fv.Fn.(*ssa.Function)
+	if !ok || f.Blocks == nil || !inRepoOrRef(f) {
+		return nil
+	}
+	return func(r rune) bool {
+		st := &State{Heap: map[int]*HObj{}, Notes: map[string]bool{}}
+		st.push(f, []Val{int64(r)}, fv.Bind)
+		out := m.Run(st)
+		if len(out) != 1 || out[0].Status != stRet {
+			*failed = true
+			return false
+		}
+		b, ok := out[0].Ret.(bool)
+		if !ok {
+			*failed = true
+		}
+		return b
+	}
+}
+
 func installFuncModels(m *Machine) {
 	mk := func(f func(s string, p func(rune) bool) Val) HookFn {
 		return func(m *Machine, st *State, call *ssa.CallCommon, args []Val) ([]Val, bool) {
 			s, ok := args[0].(string)
 			pr := unicodePred(args[1])
+			failed := false
+			if pr == nil {
+				pr = repoPred(m, args[1], &failed)
+			}
 			if !ok || pr == nil {
 				return nil, false
 			}
-			return []Val{f(s, pr)}, true
+			res := f(s, pr)
+			if failed {
+				return nil, false
+			}
+			return []Val{res}, true
 		}
 	}
 	m.Hooks["strings.TrimRightFunc"] = mk(func(s string, p func(rune) bool) Val { return strings.TrimRightFunc(s, p) })
